@@ -1529,6 +1529,108 @@ func uniq(xs []string) []string {
 	return out
 }
 
+// stateless: packages whose package-level functions keep no state between calls (table, trusted)
+var stateless = map[string]bool{"strings": true, "strconv": true, "bytes": true, "unicode": true, "unicode/utf8": true,
+	"errors": true, "sort": true, "math": true, "math/bits": true, "slices": true, "maps": true, "io": true, "hash/fnv": true,
+	"iter": true, "cmp": true, "unsafe": true, "hash": true, "golang.org/x/exp/constraints": true}
+
+func stdClass(pkg, name string, isVar bool) (string, string) {
+	switch {
+	case isVar && pkg == "io" && (name == "EOF" || strings.HasPrefix(name, "Err")):
+		return "immutable", "sentinel error value, compared only"
+	case isVar && pkg == "errors":
+		return "immutable", "sentinel error value"
+	case isVar:
+		return "unclassified", "package-level variable of " + pkg
+	case stateless[pkg]:
+		return "immutable", "package " + pkg + " keeps no state between calls (table in gen-c20)"
+	case pkg == "fmt" && (strings.HasPrefix(name, "Sprint") || strings.HasPrefix(name, "Fprint") || name == "Errorf" || strings.HasPrefix(name, "Sscan") || strings.HasPrefix(name, "Append")):
+		return "immutable", "formats into its own buffer / the writer it is given (fmt's printer pool is a sync.Pool)"
+	case pkg == "fmt" && strings.HasPrefix(name, "Print"):
+		return "synchronised", "writes os.Stdout, whose writes are serialised by the file's lock"
+	case pkg == "math/rand" && (name == "New" || name == "NewSource" || name == "NewZipf"):
+		return "immutable", "constructor: the state belongs to the returned value"
+	case pkg == "math/rand" || pkg == "math/rand/v2":
+		return "synchronised", "top-level functions of " + pkg + " draw from the locked global source"
+	case pkg == "time" && (name == "Now" || name == "Since" || name == "Until"):
+		return "immutable", "reads the clock"
+	case pkg == "time":
+		return "immutable", "pure function of its arguments"
+	case pkg == "sync" || pkg == "sync/atomic":
+		return "synchronised", "synchronisation primitive"
+	}
+	return "unclassified", "package-level function of " + pkg + " not in the table of gen-c20"
+}
+
+// externalState inventories every package-level function and variable of packages outside the module
+// that non-test code of the module refers to.
+func (a *analysis) externalState(usesBy map[*types.Var][]use) []*global {
+	type ent struct {
+		isVar bool
+		users map[string]bool
+	}
+	seen := map[string]*ent{}
+	for _, p := range a.pkgs {
+		for _, o := range p.info.Uses {
+			if o == nil || o.Pkg() == nil || a.inModule(o) || o.Parent() != o.Pkg().Scope() {
+				continue
+			}
+			isVar := false
+			switch x := o.(type) {
+			case *types.Var:
+				isVar = true
+			case *types.Func:
+				_ = x
+			default:
+				continue
+			}
+			k := o.Pkg().Path() + "\x00" + o.Name()
+			if seen[k] == nil {
+				seen[k] = &ent{isVar: isVar, users: map[string]bool{}}
+			}
+			seen[k].users[p.rel] = true
+		}
+	}
+	var keys []string
+	for k := range seen {
+		keys = append(keys, k)
+	}
+	sort.Strings(keys)
+	var out []*global
+	for _, k := range keys {
+		parts := strings.SplitN(k, "\x00", 2)
+		e := seen[k]
+		class, why := stdClass(parts[0], parts[1], e.isVar)
+		if e.isVar {
+			for v, us := range usesBy {
+				if v.Pkg() == nil || v.Pkg().Path() != parts[0] || v.Name() != parts[1] {
+					continue
+				}
+				for _, u := range us {
+					if isWrite(u.cat) && class != "unsynchronised-mutable" {
+						class, why = "unsynchronised-mutable", u.cat+" in "+u.fn
+					}
+				}
+			}
+		}
+		if class == "immutable" && !e.isVar && stateless[parts[0]] {
+			continue // stateless helpers are not listed one by one
+		}
+		var us []string
+		for u := range e.users {
+			us = append(us, u)
+		}
+		sort.Strings(us)
+		kind := "extfunc"
+		if e.isVar {
+			kind = "extvar"
+		}
+		out = append(out, &global{Pkg: "std:" + parts[0], Name: parts[1], Kind: kind, Class: class,
+			Evidence: "outside the module: " + why, Pos: "referenced from " + strings.Join(us, ","), Type: kind})
+	}
+	return out
+}
+
 func coqString(s string) string {
 	var b strings.Builder
 	for _, r := range s {
@@ -1547,7 +1649,8 @@ func coqString(s string) string {
 }
 
 var coqKind = map[string]string{"func": "KFunc", "pointer": "KPointer", "slice": "KSlice", "map": "KMap", "array": "KArray",
-	"struct": "KStruct", "basic": "KBasic", "interface": "KInterface", "chan": "KChan", "sync": "KSync", "other": "KOther"}
+	"struct": "KStruct", "basic": "KBasic", "interface": "KInterface", "chan": "KChan", "sync": "KSync", "other": "KOther",
+	"extfunc": "KOther", "extvar": "KOther"}
 var coqClass = map[string]string{"immutable": "Immutable", "synchronised": "Synchronised",
 	"unsynchronised-mutable": "UnsyncMutable", "unclassified": "Unclassified"}
 
@@ -1693,7 +1796,13 @@ func main() {
 	usesBy := map[*types.Var][]use{}
 	for _, p := range a.pkgs {
 		for _, f := range p.files {
-			for _, u := range a.usesOf(p, f, nil, func(v *types.Var) bool { _, ok := byVar[v]; return ok }) {
+			for _, u := range a.usesOf(p, f, nil, func(v *types.Var) bool {
+				if _, ok := byVar[v]; ok {
+					return true
+				}
+				// package-level variables of other packages (io.EOF, os.Stdout ...) are tracked, too
+				return !v.IsField() && v.Pkg() != nil && !a.inModule(v) && v.Parent() == v.Pkg().Scope()
+			}) {
 				usesBy[u.rootVar] = append(usesBy[u.rootVar], u)
 			}
 		}
@@ -1708,10 +1817,16 @@ func main() {
 		a.classify(g, usesBy[g.v])
 	}
 
+	// uses of package-level functions and variables of packages outside the module (the standard library):
+	// the library's own variables are not the only state goroutines could share
+	globals = append(globals, a.externalState(usesBy)...)
+
 	var b strings.Builder
 	b.WriteString("(* GENERATED by /verif/harness/cmd/gen-c20 from the Go sources of " + l.modpath + " -- DO NOT EDIT.\n")
 	b.WriteString("   One record per package-level variable of every non-test file compiled without the `verif` tag:\n")
-	b.WriteString("   package, name, kind, classification, evidence (the syntactic rule that decided; see gen-c20/main.go). *)\n")
+	b.WriteString("   package, name, kind, classification, evidence (the syntactic rule that decided; see gen-c20/main.go);\n")
+	b.WriteString("   then one record per stateful package-level function / variable of packages outside the module (std:...)\n")
+	b.WriteString("   that non-test code refers to, classified by the table in gen-c20. *)\n")
 	b.WriteString("From Coq Require Import String List.\nFrom Algo.C20 Require Import Inventory.\nImport ListNotations.\nOpen Scope string_scope.\n\n")
 	b.WriteString("Definition globals : list global := [\n")
 	for i, g := range globals {
